@@ -48,10 +48,20 @@ def run(ctx):
                 if ok:
                     kind = c["kind"]
                     if kind == "optional":
-                        ok = is_call(t, "Option::map") and mentions(call_args(t)[1], lambda s: s[0] == "const" and isinstance(s[2], tuple) and s[2][0] == "fn" and "String" in s[2][1])
-                        why = "optional scalar %s is not map.get(key).map(String::from)" % f
+                        # the looked-up string copied as it is: .map(String::from) / .cloned() / .map(Clone::clone | to_string | to_owned | Into::into)
+                        COPY_FN = ("String", "Clone", "clone", "to_string", "to_owned", "ToOwned", "ToString", "Into", "into")
+                        u = strip_refs(t)
+                        for _ in range(4):
+                            if is_call(u, "Option::cloned", "Option::copied", "Option::as_deref", "Option::as_ref"):
+                                u = strip_refs(call_args(u)[0])
+                            elif is_call(u, "Option::map") and mentions(call_args(u)[1], lambda s: s[0] == "const" and isinstance(s[2], tuple) and s[2][0] == "fn" and any(x in s[2][1] for x in COPY_FN)):
+                                u = strip_refs(call_args(u)[0])
+                            else:
+                                break
+                        ok = u is not t and u != strip_refs(t) and is_call(u, "HashMap::get")
+                        why = "optional scalar %s is not the looked-up string copied unchanged (map.get(key).map(String::from) / .cloned())" % f
                     elif kind == "required":
-                        ok = is_call(t, c["via"]) and bool(find_calls(t, "Option::ok_or", "Option::ok_or_else")) and bool(find_calls(t, "Try>::branch"))
+                        ok = is_call(t, c["via"]) and bool(find_calls(t, "Option::ok_or", "Option::ok_or_else")) and has_try(t)
                         mf = find_calls(t, "Error::missing_field")
                         ok = ok and bool(mf) and const_str(call_args(mf[0])[0]) == key
                         why = "required %s is not %s(map.get(key).ok_or(missing_field(key))?)" % (f, c["via"])
@@ -61,7 +71,7 @@ def run(ctx):
                         for cl in clo:
                             for cp in ret_paths(ctx.paths(cl[2]) or []):
                                 okc = okc or (is_call(cp.end[1], c["via"]) and mentions(cp.end[1], lambda s: s == ("param", 2)))
-                        ok = bool(find_calls(t, "Try>::branch")) and bool(find_calls(t, "Option::transpose")) and okc
+                        ok = has_try(t) and bool(find_calls(t, "Option::transpose")) and okc
                         why = "%s is not map.get(key).map(%s).transpose()? (error propagated)" % (f, c["via"])
                     elif kind == "list":
                         clo = [s for s in subterms(t) if s[0] == "agg" and s[1] == "closure"]
@@ -84,7 +94,7 @@ def run(ctx):
                                     via = mentions(r, lambda s: s[0] == "const" and isinstance(s[2], tuple) and s[2][0] == "fn" and s[2][1] == c["via"])
                                     res = "Result" in " ".join(r[2])
                                     okc = okc or (via and res and not find_calls(r, "::flatten", "::filter_map", "::rev", "::take", "::skip"))
-                        ok = okc and bool(find_calls(t, "Try>::branch"))
+                        ok = okc and has_try(t)
                         why = "%s is not split_whitespace().map(%s).collect::<Result<Vec,_>>()? (any bad item fails the record)" % (f, c["via"])
                 ctx.check(ok, "D1-KEY-FIELD", DK, "field=%s" % f, "%s <- %s (%s)" % (f, key, c["kind"]), why, fn_span(body))
             missing = set(byfield) - set(flds)
@@ -141,7 +151,7 @@ def run(ctx):
                 ctx.check(okp, "D2-PAIRING", FR, "emit-clear-append", "emit -> buffer.clear() -> append",
                           "after an in-loop emit the buffer is not cleared before the next line is appended: the next record inherits this record's lines", body.span_of(emits[0].bb))
                 src = emits[0].args[1]
-                oks = bool(find_calls(src, "ScanIndex::str_to_index")) and bool(find_calls(src, "Try>::branch")) and \
+                oks = bool(find_calls(src, "ScanIndex::str_to_index")) and has_try(src) and \
                     any(names.get(s[1]) == "buffer" for s in subterms(src) if s[0] in ("havoc", "mutated"))
                 ctx.check(oks, "D2-SEGMENT", FR, "emit-source", "emits str_to_index(&buffer)?", "the emitted record is not str_to_index(&buffer)?", body.span_of(emits[0].bb))
             else:
@@ -174,7 +184,7 @@ def run(ctx):
         only_appended(ctx, "D3-RETURN", FR, "indexes", lambda t: isinstance(t, tuple) and t[0] == "loc" and t[1] in idxl, floor=2)
         errprop(ctx, FR, paths, body, rule="D3-ERRPROP", no_effects_after_error=("Vec::push",), floor=2)
     STI = "scanindex::ScanIndex::str_to_index"
-    paths = ctx.paths(STI)
+    paths = ctx.paths(STI, desugar=True)     # `deserialize(..).map_err(f)` returned as it is and `Ok(deserialize(..).map_err(f)?)` are the same paths once evaluated
     if paths:
         body = ctx.body(STI)
         errprop(ctx, STI, paths, body, rule="D3-ERRPROP", no_effects_after_error=(), floor=1)
